@@ -211,9 +211,19 @@ def measures_local(body, op, local, depth=0):
     return False
 
 
+def is_limit_ty(F, t):
+    """the size limit: Option<usize>, or a local newtype around it (`struct SizeLimit(Option<usize>)`)"""
+    if t is None:
+        return False
+    if "Option<usize>" in tystr(t):
+        return True
+    a = F.adt(ty_adt(strip_refs(t)) or "") if F is not None else None
+    return bool(a and a.get("local") and a["kind"] == "struct" and len(a["variants"][0]["fields"]) == 1 and "Option<usize>" in tystr(a["variants"][0]["fields"][0]["ty"]))
+
+
 def is_limit_check(body):
-    """a local function taking the size limit (Option<usize>) — analysed on its own (check_limit_fn), never inlined"""
-    return any("Option<usize>" in tystr(body.local_ty(k)) for k in range(1, body.argc + 1)) and "Result<()" in tystr(body.local_ty(0))
+    """a local function taking the size limit — analysed on its own (check_limit_fn), never inlined"""
+    return any(is_limit_ty(body.facts, body.local_ty(k)) for k in range(1, body.argc + 1)) and "Result<()" in tystr(body.local_ty(0))
 
 
 def expand_reader(crate, b):
@@ -254,8 +264,11 @@ def check_reader(ctx, crate, b, limited=True, rule="R6.2"):
             checks = []
             for bb, t in b.calls():
                 f = t["call"]
-                if f.get("local") and len(t["args"]) == 2 and any(measures_local(b, t["args"][0], a_) for a_ in grp) and op_place(t["args"][1]) is not None and "Option<usize>" in tystr(b.local_ty(place_local(op_place(t["args"][1])))):
-                    checks.append((bb, t))
+                if f.get("local") and len(t["args"]) == 2:
+                    for mi, li in ((0, 1), (1, 0)):
+                        if any(measures_local(b, t["args"][mi], a_) for a_ in grp) and op_place(t["args"][li]) is not None and is_limit_ty(F, b.local_ty(place_local(op_place(t["args"][li])))):
+                            checks.append((bb, t))
+                            break
             succ_edges = set()
             for cbb, t in checks:
                 for sbb, v in dt.success_edges(b, F, place_local(t["dest"])):
@@ -367,7 +380,8 @@ def check_limit_fn(ctx, crate, readers):
     for b in readers:
         for bb, t in b.calls():
             f = t["call"]
-            if f.get("local") and len(t["args"]) == 2 and "Option<usize>" in tystr(b.local_ty(place_local(op_place(t["args"][1])))) and "Result<()" in tystr(b.local_ty(place_local(t["dest"]))):
+            if f.get("local") and len(t["args"]) == 2 and any(op_place(a_) is not None and is_limit_ty(b.facts, b.local_ty(place_local(op_place(a_)))) for a_ in t["args"]) \
+                    and "Result<()" in tystr(b.local_ty(place_local(t["dest"]))):
                 ids.add(f["id"])
     ctx.check(len(ids) == 1, "R6.2", "conjure_http", "limit-check|unique", f"expected one shared limit-check function, found {sorted(ids)}", nontrivial=False)
     for i in ids:
@@ -393,8 +407,13 @@ def check_limit_fn(ctx, crate, readers):
                         xl, x, y = True, y, x
                     if not pol:
                         op = {"Lt": "Ge", "Le": "Gt", "Gt": "Le", "Ge": "Lt"}.get(op, op)
-                    lp = [k for k in range(1, b.argc + 1) if "Option<usize>" in tystr(b.local_ty(k))]
-                    lim = bool(lp) and (lp[0] in tr.root_locals(y) or any((s[0] == "field" and s[1] == ("arg", lp[0])) for s in tr.sources(y)))
+                    lp = [k for k in range(1, b.argc + 1) if is_limit_ty(b.facts, b.local_ty(k))]
+
+                    def base_(s):
+                        while s[0] == "field":
+                            s = s[1]
+                        return s
+                    lim = bool(lp) and (lp[0] in tr.root_locals(y) or any(base_(s) == ("arg", lp[0]) for s in tr.sources(y)))
                     conds.append((op, xl, lim))
             good = conds == [("Gt", True, True)]
         ctx.check(good, "R6.2", b.loc(), f"{b.name}|rejects-gt", f"{b.name}: must return Err exactly when buf.len() > limit (found conditions {conds if errs else 'no Err'}); bodies of exactly the limit are accepted, larger ones rejected, nothing is truncated",
@@ -489,7 +508,9 @@ def panic_sites(body):
             if d.startswith("core::panicking::") or d.startswith("std::rt::begin_panic") or nm in ("panic_fmt", "unreachable_display", "panic_display"):
                 out.append((t["ln"], d, t.get("x")))
             if nm == "index" and "ops::index::Index" in d:
-                out.append((t["ln"], "Index::index", t.get("x")))
+                # indexing with `..` (RangeFull) selects the whole slice / str / Vec / array and cannot fail
+                if not any(ty_adt(s_) == "core::ops::range::RangeFull" for s_ in t["call"].get("substs", [])[1:2]):
+                    out.append((t["ln"], "Index::index", t.get("x")))
     return out
 
 
@@ -522,28 +543,38 @@ def run(ctx):
     n = check_error_classes(ctx, c, scope, "R6.3")
     ctx.floor("R6.3", "error construction sites on request-body paths", n, 3)
     # R6.4 optional / binary / encoding lookup
+    def content_type_presence(b, cfg, bb):
+        """True / False when block bb is reached only with / only without a Content-Type header, decided by the tests that
+        control it: contains_key(CONTENT_TYPE), or the Some / None arm (is_some / is_none) of get(CONTENT_TYPE)"""
+        vt = dt.value_tracer(b)
+        gets = [(gbb, t) for gbb, t in b.calls() if t["call"]["name"] == "get" and len(t["args"]) == 2
+                and (dt.resolve_const(b, t["args"][1]) or {}).get("item") == "http::header::name::CONTENT_TYPE"]
+        verdicts = set()
+        for sbb, allowed, allv in dt.edge_conditions(cfg, bb):
+            atom = dt.switch_atom(b, sbb)
+            if atom[0] == "call" and atom[1]["call"]["name"] == "contains_key":
+                c_ = dt.resolve_const(b, atom[1]["args"][1])
+                if c_ and c_.get("item") == "http::header::name::CONTENT_TYPE" and dt.bool_polarity(allowed) is not None:
+                    verdicts.add(dt.bool_polarity(allowed))
+            elif atom[0] == "call" and atom[1]["call"]["name"] in ("is_some", "is_none") and any(dt.derives_from_call(b, atom[1]["args"][0], gbb, vt) for gbb, _ in gets):
+                pol = dt.bool_polarity(allowed)
+                if pol is not None:
+                    verdicts.add(pol if atom[1]["call"]["name"] == "is_some" else not pol)
+            elif atom[0] == "discr" and ty_adt(dt.place_ty(b, F, atom[1]) or {}) == "core::option::Option" and any(dt.derives_from_call(b, {"cp": atom[1]}, gbb, vt) for gbb, _ in gets):
+                vs = dt.allowed_variants(allowed, allv, ["None", "Some"])
+                if len(vs) == 1:
+                    verdicts.add(vs == {"Some"})
+        return next(iter(verdicts)) if len(verdicts) == 1 else None
     for trait, b in find_impl_bodies(c, OPT):
+        # a private classification helper (`Presence::detect(headers)`) is judged where it is used
+        b = inline.expand(c, b, depth=2, pred=lambda cb: cb.d.get("vis") != "pub", lower=True)
         cfg = CFG(b)
         who = f"OptionalRequestDeserializer::{'async ' if 'Async' in trait else ''}deserialize"
         nones = [(bb, j, s) for bb, j, s in b.stmts() if s["r"].get("agg") == "adt" and s["r"].get("variant") == "None" and "Option" in s["r"]["adt"]]
         deleg = [(bb, t) for bb, t in b.calls() if t["call"]["name"] == "deserialize" and t["call"].get("trait") in DESER_TRAITS and ty_adt(t["call"]["substs"][0]) == STD]
         ok = len(nones) == 1 and len(deleg) == 1
         if ok:
-            pol = None
-            for sbb, allowed, allv in dt.edge_conditions(cfg, nones[0][0]):
-                atom = dt.switch_atom(b, sbb)
-                if atom[0] == "call" and atom[1]["call"]["name"] == "contains_key":
-                    c_ = dt.resolve_const(b, atom[1]["args"][1])
-                    if c_ and c_.get("item") == "http::header::name::CONTENT_TYPE":
-                        pol = dt.bool_polarity(allowed)
-                elif atom[0] == "not":
-                    pass
-            pol2 = None
-            for sbb, allowed, allv in dt.edge_conditions(cfg, deleg[0][0]):
-                atom = dt.switch_atom(b, sbb)
-                if atom[0] == "call" and atom[1]["call"]["name"] == "contains_key":
-                    pol2 = dt.bool_polarity(allowed)
-            ok = pol is False and pol2 is True
+            ok = content_type_presence(b, cfg, nones[0][0]) is False and content_type_presence(b, cfg, deleg[0][0]) is True
         ctx.check(ok, "R6.4", b.loc(), f"{who}|absent-only-without-content-type", f"{who}: must return Ok(None) exactly when the request has no Content-Type header and otherwise delegate to the standard deserializer",
                   instance=f"{who}: None iff !contains_key(CONTENT_TYPE), else StdRequestDeserializer")
     binb = [b for b in c.bodies if b.name == "deserialize_inner" and b.impl and ty_adt(b.self_ty) == BIN]
